@@ -1309,7 +1309,11 @@ class Module(ABC):
                 # `set_param` is of shape `(num_params,)`
                 # We need to unsqueeze `set_param` to make it `(num_params, 1)` for the
                 # `.set()` to work. This is done with `[:, None]`.
-                params[key] = params[key].at[inds].set(set_param[:, None])
+                # Groups of unequal size are padded with `-1` by `make_trainable()`.
+                # `-1` would address the last element, so the padding is moved out of
+                # range and dropped.
+                inds = jnp.where(inds < 0, params[key].shape[0], inds)
+                params[key] = params[key].at[inds].set(set_param[:, None], mode="drop")
 
         # Compute conductance params and add them to the params dictionary.
         params["axial_conductances"] = self.base._compute_axial_conductances(
@@ -1369,7 +1373,9 @@ class Module(ABC):
                 # `set_param` is of shape `(num_params,)`
                 # We need to unsqueeze `set_param` to make it `(num_params, 1)` for the
                 # `.set()` to work. This is done with `[:, None]`.
-                states[key] = states[key].at[inds].set(set_param[:, None])
+                # See `get_all_parameters()` for the treatment of the `-1` padding.
+                inds = jnp.where(inds < 0, states[key].shape[0], inds)
+                states[key] = states[key].at[inds].set(set_param[:, None], mode="drop")
 
         # Add to the states the initial current through every channel.
         states, _ = self.base._channel_currents(
